@@ -78,6 +78,11 @@ def check_run(ctx, r, scen):
         return False
     br = None if r["breaker"][0] == "NoCall" else f"{r['breaker'][0]}:{r['breaker'][1]}"
     oc = r["outcomes"]
+    odd = {c: o for c, o in oc.items() if o.startswith("unexpected:")}
+    if odd:
+        ctx.violation("neither-own-exception-nor-lock-error", f"callers left the lock with something else: {odd} (the holder raised a "
+                      f"{r.get('exc_kind')} exception)", scen)
+        return False
     if br is None:
         bad = [c for c in calls if oc[c] != "ok"]
         if bad:
@@ -152,9 +157,10 @@ def impl_part(ctx):
         seed = rng.randrange(1 << 30)
         strat = ds.PCTStrategy(seed, depth=rng.choice([1, 2, 3]), est_steps=120) if i % 2 else ds.RandomStrategy(seed)
         nres = 0 if counter_mode else rng.choice([0, 0, 1, 2, 3])
-        r = run_lock(n, rounds, breaker, strat, counter_mode=counter_mode, resets=nres)
+        ek = ("msg", "bare", "base")[i % 3]      # the holder's exception: with a message / without arguments / a BaseException
+        r = run_lock(n, rounds, breaker, strat, counter_mode=counter_mode, resets=nres, exc_kind=ek)
         record(r, {"kind": "lock", "n": n, "rounds": rounds, "breaker": breaker, "mode": "pct" if i % 2 else "random",
-                   "counter_mode": counter_mode, "resets": nres, "choices": r["choices"]})
+                   "counter_mode": counter_mode, "resets": nres, "exc_kind": ek, "choices": r["choices"]})
     validate_traces(ctx, traces, scens)
     if traces:
         ctx.sample({"real_trace_excerpt": traces[-1]["evs"][:12], "breaker": traces[-1]["breaker"]})
@@ -318,7 +324,7 @@ def replay(d):
         return 0
     br = tuple(sc["breaker"]) if sc.get("breaker") else None
     r = run_lock(sc["n"], sc["rounds"], br, ds.ScriptedStrategy(sc["choices"]), counter_mode=sc.get("counter_mode", False),
-                 resets=sc.get("resets", 0))
+                 resets=sc.get("resets", 0), exc_kind=sc.get("exc_kind", "msg"))
     print("verdict", r["verdict"], r["verdict_info"])
     print("outcomes", r["outcomes"], "got", r["got"])
     for e in r["evs"]:
